@@ -31,6 +31,10 @@ class LockGen:
     def tail_release(self, t, kind, v, ops):
         r = self.rng.random()
         other = self.var(t, kind, 1)
+        if other == v:
+            # never `mctor x x`: constructing an object from itself is not a legal use (self move-ASSIGNMENT is, and the
+            # same-lock scenarios exercise it)
+            other = self.var(t, kind, 0)
         if r < 0.55:
             ops.append(f'dtor {v}')
         elif r < 0.75:
